@@ -17,8 +17,11 @@ def build(wt):
 
 
 def ctest(wt):
-    for attempt in range(3):     # fixed /tmp names collide with concurrent runs: retry before believing a failure
-        r = sh(f"ctest --test-dir {wt}/_build -j4 --timeout 900 2>&1 | tail -5", shell=True)
+    r = sh(f"ctest --test-dir {wt}/_build -j4 --timeout 900 2>&1 | tail -5", shell=True)
+    if "100% tests passed" in r.stdout:
+        return True, r.stdout[-300:]
+    for attempt in range(6):     # fixed /tmp names collide with concurrent runs: re-run the failed ones alone
+        r = sh(f"ctest --test-dir {wt}/_build --rerun-failed -j1 --timeout 900 2>&1 | tail -5", shell=True)
         if "100% tests passed" in r.stdout:
             return True, r.stdout[-300:]
     return False, r.stdout[-600:]
